@@ -2,17 +2,19 @@
 import re
 from core import *  # noqa
 from roles import *  # noqa
-import roles, shared, symex
+import roles, shared, symex, inline, absint
 import queue_rules as Q
+import server_rules as S
 
 EXPLANATION = (
-    "Token accounting and blocking effects decided on MIR: unblock queues exactly one token and notifies; each receive "
-    "flavour consumes at most one token per call and then returns empty-handed; tokens are built only by unblock and matched "
-    "only by the three pops; elements are never dropped/reordered (FIFO census, move-out); the public mapping of "
-    "None/Error/NewRequest per receive call is extracted symbolically; try_recv reaches no blocking primitive and recv_timeout "
-    "only the timed wait, whose duration derives from the caller's timeout (mono effect graph + provenance); a wake-up is never "
-    "consumed without looking at the queue. Wall-clock bounds are not decided.")
-TRUSTED = ["rustc MIR / trait resolution", "std effect table", "std Condvar semantics"]
+    "Token accounting and blocking effects decided on MIR, independent of the entry representation and of helper structure: the "
+    "token producer queues exactly one constant entry per call and notifies, Server::unblock calls it exactly once and nothing "
+    "else does; a token can be told from an element by its variant; each consumer that takes a token returns nothing without "
+    "popping or waiting again (variant propagation from `the popped entry is the token`); elements are never dropped/reordered "
+    "(FIFO census, element returned); the public mapping of None/Error/NewRequest per receive call is decided by variant propagation; "
+    "try_recv reaches no blocking primitive and recv_timeout only the timed wait, whose duration derives from the caller's timeout "
+    "(mono effect graph + provenance); a wake-up is never consumed without looking at the queue. Wall-clock bounds are not decided.")
+TRUSTED = ["rustc MIR / trait resolution", "std effect table", "std Condvar semantics", "MIR of the small std combinators as shipped with the toolchain"]
 
 BLOCKING = {"CV-WAIT", "CV-WAIT-T", "CHAN-RECV", "SLEEP", "JOIN", "BLOCK-IO", "WAIT-TURN-W", "WAIT-TURN-R", "USER-CALLBACK", "DYN-UNKNOWN"}
 
@@ -20,48 +22,22 @@ BLOCKING = {"CV-WAIT", "CV-WAIT-T", "CHAN-RECV", "SLEEP", "JOIN", "BLOCK-IO", "W
 def run(ctx):
     facts = ctx.facts
     roles.bind(facts)
-    unblock = roles.inherent(facts, MQ, "unblock")
-    # ---- C17.1
-    ctx.touch(unblock)
-    pbs = Q.deque_calls(unblock, "push_back")
-    ok = len(pbs) == 1 and not unblock.in_loop(pbs[0])
-    ctx.ob("C17.1", "%s|one-token" % unblock.id, "unblock queues exactly one token (one push_back, not in a loop)", ok, "%s:%d" % (unblock.file, unblock.line))
-    if pbs:
-        o = unblock.origin(unblock.term(pbs[0])["args"][1])
-        ctx.ob("C17.1", "%s|token-is-Unblock" % unblock.id, "what unblock queues is the Unblock token", o[0] == "agg" and o[1] == CTRL and o[4] == "Unblock", unblock.loc(pbs[0]), origin_str(o))
-    nots = Q.notify_calls(unblock)
-    reach = unblock.reach([unblock.normal_target(pbs[0])] if pbs else [0], blocked=set(nots), unwind=False)
-    ctx.ob("C17.1", "%s|notifies" % unblock.id, "unblock wakes a waiting receiver", bool(nots) and not any(r in reach for r in unblock.returns()), "%s:%d" % (unblock.file, unblock.line))
-    srv_unblock = facts.fn("Server::unblock")
-    calls = srv_unblock.call_blocks(lambda t: call_is(t, unblock.id))
-    ctx.ob("C17.1", "Server::unblock|delegates-once", "Server::unblock calls the queue's unblock exactly once", len(calls) == 1 and not srv_unblock.in_loop(calls[0]), "%s:%d" % (srv_unblock.file, srv_unblock.line))
+    m = Q.model(facts)
+    # ---- C17.1 one token per unblock, with a wake-up
+    n = Q.rule_one_entry_per_call(ctx, "C17.1", "token")
+    ctx.floor("C17.1 token producers", n, 1)
+    for rid in m.producer_roots("token"):
+        f = m.inl[rid]
+        pbs = Q.deque_calls(f, "push_back")
+        nots = Q.notify_calls(f)
+        reach = f.reach([f.normal_target(pbs[0])] if pbs else [0], blocked=set(nots), unwind=False)
+        ctx.ob("C17.1", "%s|notifies" % rid, "queuing a token wakes a waiting receiver", bool(nots) and not any(r in reach for r in f.returns()), "%s:%d" % (f.file, f.line))
+    S.rule_unblock_delegates(ctx, "C17.1")
 
-    # ---- C17.2 one token per call; tokens built only by unblock
-    n = 0
-    for f in Q.mq_fns(facts):
-        pops = Q.deque_calls(f, "pop_front")
-        for i, pb in enumerate(pops):
-            cs = Q.control_switch(f, pb)
-            ctx.require(cs is not None, "C17.2: match on popped Control not found in %s" % f.id)
-            sw, m, none_t = cs
-            ub = m.get("Unblock")
-            ctx.require(ub is not None, "C17.2: no Unblock arm in %s" % f.id)
-            n += 1
-            ctx.touch(f)
-            reach = f.reach([ub], unwind=False)
-            waits = set(Q.wait_calls(f))
-            ok = not (reach & set(pops)) and not (reach & waits) and any(r in reach for r in f.returns())
-            ctx.paths += 1
-            ctx.ob("C17.2", "%s|pop%d|token-ends-call" % (f.id, i), "after taking an unblock token the receive call returns without popping or waiting again", ok, f.loc(pb))
-            # and what it returns is None
-            outs = shared.eval_from(f, ub)
-            okn = bool(outs) and all(st.read_key((0,)) == ("none",) for p, st in outs)
-            ctx.ob("C17.2", "%s|pop%d|token-returns-none" % (f.id, i), "a token is reported as `None`, never as an element", okn, f.loc(ub))
+    # ---- C17.2 one token per call; tokens distinguishable; a token ends the call with nothing
+    n = Q.rule_tokens(ctx, "C17.2")
     ctx.floor("C17.2 pop sites", n, 3)
-    for f, bb, s in facts.constructions(CTRL, "Unblock"):
-        ctx.ob("C17.2", "token-construct|%s" % f.id, "unblock tokens are created only by unblock()", f.id == unblock.id, f.loc(bb))
-    for f, bb, s in facts.constructions(CTRL, "Elem"):
-        ctx.ob("C17.2", "elem-construct|%s" % f.id, "elements are queued only by push()", f.id == roles.inherent(facts, MQ, "push").id, f.loc(bb))
+    Q.rule_one_entry_per_call(ctx, "C17.2", "elem")
 
     # ---- C17.3
     n = Q.rule_no_loss(ctx, "C17.3")
@@ -69,40 +45,9 @@ def run(ctx):
     ctx.floor("C17.3 sites", n, 6)
 
     # ---- C17.4 public mapping
-    expect_none = {"Server::recv": "err", "Server::recv_timeout": "ok-none", "Server::try_recv": "ok-none"}
-    pops_of = {"Server::recv": "pop", "Server::recv_timeout": "pop_timeout", "Server::try_recv": "try_pop"}
-    for name, want in expect_none.items():
-        f = facts.fn(name)
-        ctx.touch(f)
-        mqf = roles.inherent(facts, MQ, pops_of[name])
-        cb = f.call_blocks(lambda t: call_is(t, mqf.id))
-        ctx.ob("C17.4", "%s|uses-%s" % (name, pops_of[name]), "%s is built on the queue's %s" % (name, pops_of[name]), len(cb) == 1, "%s:%d" % (f.file, f.line))
-        if not cb:
-            continue
-        dl = f.term(cb[0])["dest"]["l"]
-        none_t = err_t = None
-        for bb in sorted(f.live_blocks()):
-            sw = switch_on_discr(f, bb)
-            if not sw or sw[0]["pl"]["l"] != dl:
-                continue
-            rv, m, otherwise, rest = sw
-            if rv.get("adt") == "std::option::Option" and not rv["pl"]["p"] and none_t is None:
-                none_t = m.get("None", otherwise if "None" in rest else None)
-            if rv.get("adt") == "Message" and err_t is None:
-                err_t = m.get("Error", otherwise if "Error" in rest else None)
-        ctx.require(none_t is not None and err_t is not None, "C17.4: match arms not found in %s" % name)
-        outs = shared.eval_from(f, none_t)
-        vals = [st.read_key((0,)) for p, st in outs]
-        if want == "err":
-            ok = bool(vals) and all(v[0] == "agg" and v[2] == "Err" for v in vals)
-        else:
-            ok = bool(vals) and all(v[0] == "agg" and v[2] == "Ok" and v[3].get("0") == ("none",) for v in vals)
-        ctx.ob("C17.4", "%s|none-mapping" % name, "an unblocked / empty-handed pop is reported as %s" % ("an error" if want == "err" else "Ok(None)"), ok, f.loc(none_t),
-               None if ok else str([symex.sym_str(v) for v in vals]))
-        outs = shared.eval_from(f, err_t)
-        vals = [st.read_key((0,)) for p, st in outs]
-        ok = bool(vals) and all(v[0] == "agg" and v[2] == "Err" and "Error" in str(v[3].get("0")) for v in vals)
-        ctx.ob("C17.4", "%s|error-mapping" % name, "a queued accept error is returned as Err(that error)", ok, f.loc(err_t))
+    n = S.rule_recv_mapping(ctx, "C17.4", which=("none", "error"))
+    ctx.floor("C17.4 mappings", n, 6)
+    # which consumer each receive flavour is built on is decided by its blocking effects (C17.5), not by a name
 
     # ---- C17.5 blocking effects
     for name, forbidden in (("Server::try_recv", BLOCKING), ("Server::recv_timeout", BLOCKING - {"CV-WAIT-T"}), ("Server::unblock", BLOCKING)):
@@ -114,23 +59,32 @@ def run(ctx):
                not bad, "%s:%d" % (f.file, f.line), None if not bad else "%s via %s" % (sorted(bad), " -> ".join(facts.effect_witness(inst["id"], sorted(bad)[0])[:8])))
     inst = facts.mono_instance("Server::recv_timeout")
     ctx.ob("C17.5", "Server::recv_timeout|uses-timed-wait", "recv_timeout does wait (timed) for a request", "CV-WAIT-T" in facts.effects()[inst["id"]], "Server::recv_timeout")
-    pt = roles.inherent(facts, MQ, "pop_timeout")
-    for bb in Q.wait_calls(pt):
-        t = pt.term(bb)
-        o = pt.origin(t["args"][2]) if len(t["args"]) > 2 else ("unknown",)
-        ok = call_is(t, CV_WAIT_T) and any(x[0] == "arg" and x[1] == 2 for x in origin_walk(o))
-        ctx.ob("C17.5", "%s|wait-bounded-by-timeout" % pt.id, "the timed wait's duration derives from the caller's timeout", ok, pt.loc(bb), origin_str(o))
-    # the time subtracted from the remaining budget after a wake-up is the time spent in *that* wait
-    nows = [bb for bb, t in pt.calls() if call_matches(t, r"^std::time::Instant::now$")]
-    els = [(bb, t) for bb, t in pt.calls() if call_matches(t, r"^std::time::Instant::elapsed$")]
-    if els:
-        okn = bool(nows) and all(pt.in_loop(b) for b in nows) and all(any(x[0] == "call" and x[3] in nows for x in origin_walk(pt.origin(t["args"][0]))) for bb, t in els)
-        ctx.ob("C17.5", "%s|elapsed-measured-per-wait" % pt.id, "the elapsed time charged against the timeout is measured from just before each wait (not accumulated twice)", okn,
-               pt.loc(els[0][0]), None if okn else "Instant::now() is taken outside the wait loop while elapsed() is subtracted on every wake-up: after two wake-ups the budget is exhausted early")
-    srt = facts.fn("Server::recv_timeout")
-    for bb in srt.call_blocks(lambda t: call_is(t, pt.id)):
-        o = srt.origin(srt.term(bb)["args"][1])
-        ctx.ob("C17.5", "Server::recv_timeout|forwards-timeout", "recv_timeout hands its own timeout to the queue", o == ("arg", 2), srt.loc(bb), origin_str(o))
+    inst = facts.mono_instance("Server::recv")
+    ctx.ob("C17.5", "Server::recv|waits", "recv waits for a request", "CV-WAIT" in facts.effects()[inst["id"]], "Server::recv")
+    timed = 0
+    for rid in m.consumers:
+        pt = m.inl[rid]
+        for bb in Q.wait_calls(pt):
+            t = pt.term(bb)
+            if not call_is(t, CV_WAIT_T):
+                continue
+            timed += 1
+            o = pt.origin(t["args"][2]) if len(t["args"]) > 2 else ("unknown",)
+            ok = any(x[0] == "arg" and x[1] >= 2 for x in origin_walk(o))
+            ctx.ob("C17.5", "%s|wait-bounded-by-timeout" % rid, "the timed wait's duration derives from the caller's timeout", ok, pt.loc(bb), origin_str(o))
+        # the time subtracted from the remaining budget after a wake-up is the time spent in *that* wait
+        nows = [bb for bb, t in pt.calls() if call_matches(t, r"^std::time::Instant::now$")]
+        els = [(bb, t) for bb, t in pt.calls() if call_matches(t, r"^std::time::Instant::elapsed$")]
+        if els:
+            okn = bool(nows) and all(pt.in_loop(b) for b in nows) and all(any(x[0] == "call" and x[3] in nows for x in origin_walk(pt.origin(t["args"][0]))) for bb, t in els)
+            ctx.ob("C17.5", "%s|elapsed-measured-per-wait" % rid, "the elapsed time charged against the timeout is measured from just before each wait (not accumulated twice)", okn,
+                   pt.loc(els[0][0]), None if okn else "Instant::now() is taken outside the wait loop while elapsed() is subtracted on every wake-up: after two wake-ups the budget is exhausted early")
+    ctx.floor("C17.5 timed waits in the queue's consumers", timed, 1)
+    srt = S.server_fn(facts, "recv_timeout")
+    for bb in [b for b, t in srt.calls() if call_name(t) in m.consumers]:
+        t = srt.term(bb)
+        os_ = [srt.origin(a) for a in t["args"][1:]]
+        ctx.ob("C17.5", "Server::recv_timeout|forwards-timeout", "recv_timeout hands its own timeout to the queue", any(o == ("arg", 2) for o in os_), srt.loc(bb), str([origin_str(o) for o in os_]))
 
     # ---- C17.6
     n = Q.rule_wait_protocol(ctx, "C17.6")
